@@ -43,9 +43,9 @@ theorem fixedSeatCount_law (e : Ev) (n : V) (a : Args) (hs : (takes e).seats = t
 theorem conditioned_law (elim e : Ev) (d : Nat) (a : Args)
     (hfit : a.fits (takes (.conditioned elim e d)) = true) :
     eval (.conditioned elim e d) a
-      = conditionedLaw (tol (takes elim) (eval elim)) (tol (takes e) (eval e)) d a := by
-  have := (agree_conditioned d (agree_tol (takes elim) (eval elim)) (agree_tol (takes e) (eval e))).onFits a
-    (by simpa [takes] using hfit)
+      = conditionedLaw (needsSeats e) (tol (takes elim) (eval elim)) (tol (takes e) (eval e)) d a := by
+  have := (agree_conditioned d (needsSeats e) (seatsOptional e) (agree_tol (takes elim) (eval elim))
+    (agree_tol (takes e) (eval e)) (seatsOptional_faithful e)).onFits a (by simpa [takes] using hfit)
   simpa [eval, acceptsPrevGains_faithful, acceptsSeats_faithful] using this
 
 /-- pre-conversion equals converting, then evaluating -/
@@ -71,7 +71,8 @@ theorem byConstituency_law (e : Ev) (app : App Ev) (pre : Option Ev) (a : Args)
     (happ : ∀ ap, app = .ev ap → (takes ap).seats = true)
     (hfit : a.fits allSig = true) :
     eval (.byConstituency e app pre) a
-      = byConstituencyLaw (tol (takes e) (eval e)) (appMap (fun x => tol (takes x) (eval x)) app)
+      = byConstituencyLaw (match pre with | some p => needsSeats p | Option.none => false)
+          (tol (takes e) (eval e)) (appMap (fun x => tol (takes x) (eval x)) app)
           (pre.map (fun x => tol (takes x) (eval x))) a := by
   rw [eval_byConstituency, acceptsPrevGains_faithful, acceptsMaxSeats_faithful]
   refine (agree_byConstituency (agree_tol (takes e) (eval e)) hs ?_ ?_).onFits a hfit
@@ -81,10 +82,10 @@ theorem byConstituency_law (e : Ev) (app : App Ev) (pre : Option Ev) (a : Args)
     | dict d => exact .dict d
     | ev ap => exact .ev (agree_tol (takes ap) (eval ap)) (happ ap rfl)
   · cases pre with
-    | none => exact .none _
+    | none => exact .none _ _ _
     | some p =>
       simp only [acceptsSeats_faithful, Option.map]
-      exact .some (agree_tol (takes p) (eval p))
+      exact .some _ _ (agree_tol (takes p) (eval p)) (seatsOptional_faithful p)
 
 /-- pre-apportionment equals apportioning, then evaluating with the table of seats -/
 theorem preApportioned_law (e : Ev) (app : App Ev) (a : Args) (hall : takesAll e = true)
@@ -110,10 +111,11 @@ theorem removedApportionment_law (e : Ev) (a : Args) (hall : takesAll e = true) 
 /-- ByParty: overall result on the totals (a seatless overall evaluator is not handed the seat count), each
     party's seats allocated over the constituencies; the allocator takes seats, previous gains and caps -/
 theorem byParty_law (o al : Ev) (a : Args) (hall : takesAll al = true) (hfit : a.fits allSig = true) :
-    eval (.byParty o (some al)) a = byPartyLaw (tol (takes o) (eval o)) (tol (takes al) (eval al)) a := by
+    eval (.byParty o (some al)) a
+      = byPartyLaw (needsSeats o) (tol (takes o) (eval o)) (tol (takes al) (eval al)) a := by
   simp only [takesAll, Bool.and_eq_true] at hall
-  have := (agree_byParty (agree_tol (takes o) (eval o)) (agree_tol (takes al) (eval al))
-    hall.1.1 hall.1.2 hall.2).onFits a hfit
+  have := (agree_byParty (needsSeats o) (seatsOptional o) (agree_tol (takes o) (eval o))
+    (agree_tol (takes al) (eval al)) (seatsOptional_faithful o) hall.1.1 hall.1.2 hall.2).onFits a hfit
   simpa [eval, acceptsPrevGains_faithful, acceptsSeats_faithful, acceptsMaxSeats_faithful] using this
 
 /-- the same for an allocator that takes only part of (prev_gains, max_seats) — possible since 5bf2df2, each
@@ -122,8 +124,10 @@ theorem byParty_law_columns (o al : Ev) (a : Args) (hs : (takes al).seats = true
     (hp : ∀ k, ∃ x, partyColumn (a.prev.getD (.dict [])) k = .ok x)
     (hm : ∀ k, ∃ x, partyColumn (a.max.getD (.dict [])) k = .ok x)
     (hfit : a.fits allSig = true) :
-    eval (.byParty o (some al)) a = byPartyLaw (tol (takes o) (eval o)) (tol (takes al) (eval al)) a := by
-  have := byParty_eq_of_columns (agree_tol (takes o) (eval o)) (agree_tol (takes al) (eval al)) hs a hp hm
+    eval (.byParty o (some al)) a
+      = byPartyLaw (needsSeats o) (tol (takes o) (eval o)) (tol (takes al) (eval al)) a := by
+  have := byParty_eq_of_columns (needsSeats o) (seatsOptional o) (agree_tol (takes o) (eval o))
+    (agree_tol (takes al) (eval al)) (seatsOptional_faithful o) hs a hp hm
   rw [Args.restrict_of_fits a allSig hfit] at this
   simpa [eval, acceptsPrevGains_faithful, acceptsSeats_faithful, acceptsMaxSeats_faithful] using this
 
@@ -192,20 +196,51 @@ theorem denote_tolerant (t : Ev) (a : Args) (hwf : WellFormed t = true) :
     denote t (a.restrict (takes t)) = denote t a :=
   (agree_tree t hwf).tolerant a
 
-/-! ## 4. the more demanding readings of the statement -/
+/-! ## 4. "no seat count" stays no seat count -/
 
-/-- an omitted seat count stays omitted: holds whenever a seat count is given, or the part takes none -/
-theorem conditioned_ideal (E' : Sem) (sP : Sig) (P : Sem) (d : Nat) (a : Args)
-    (h : a.n.isSome = true ∨ sP.seats = false) :
-    conditionedLaw E' (tol sP P) d a = conditionedIdeal E' (tol sP P) d a := by
-  simp only [conditionedLaw, conditionedIdeal, tol]
-  rcases h with h | h
-  · cases hn : a.n with
-    | none => simp [hn] at h
-    | some v => simp
-  · cases sP with | mk seats prev max ext =>
-    simp at h; subst h
-    simp [Args.restrict]
+theorem seatsForm_given (needs : Bool) (v : V) (h : isNone v = false) : seatsForm needs v = some v := by
+  simp [seatsForm, h]
+
+theorem seatsForm_none_optional : seatsForm false .none = Option.none := rfl
+
+theorem seatsForm_none_required : seatsForm true .none = some .none := rfl
+
+/-- a call without seat count (omitted, or the wrapper's default None) reaches a main evaluator that can be
+    called without one WITHOUT seat count: exactly evaluating the part on the restricted votes, by hand -/
+theorem conditioned_omitted_stays_omitted (E P : Sem) (d : Nat) (a : Args)
+    (h : a.n = Option.none ∨ a.n = some .none) :
+    conditionedLaw false E P d a = (do
+      let prev := a.prev.getD (.dict [])
+      let totals ← sumParty d a.votes
+      let prevTotals ← sumParty d prev
+      let passed ← E { votes := totals, prev := some prevTotals }
+      let restricted ← elimParty d a.votes passed
+      P { a with votes := restricted, n := Option.none, prev := some prev }) := by
+  rcases h with h | h <;> simp [conditionedLaw, h, seatsForm, isNone]
+
+/-- … a main evaluator whose seat count is a required argument is told None (as before the repair) … -/
+theorem conditioned_required_gets_none (E P : Sem) (d : Nat) (a : Args)
+    (h : a.n = Option.none ∨ a.n = some .none) :
+    conditionedLaw true E P d a = (do
+      let prev := a.prev.getD (.dict [])
+      let totals ← sumParty d a.votes
+      let prevTotals ← sumParty d prev
+      let passed ← E { votes := totals, prev := some prevTotals }
+      let restricted ← elimParty d a.votes passed
+      P { a with votes := restricted, n := some .none, prev := some prev }) := by
+  rcases h with h | h <;> simp [conditionedLaw, h, seatsForm, isNone]
+
+/-- … and a given seat count is handed on unchanged -/
+theorem conditioned_given_seats (needs : Bool) (E P : Sem) (d : Nat) (a : Args) (v : V) (h : a.n = some v)
+    (hv : isNone v = false) :
+    conditionedLaw needs E P d a = (do
+      let prev := a.prev.getD (.dict [])
+      let totals ← sumParty d a.votes
+      let prevTotals ← sumParty d prev
+      let passed ← E { votes := totals, prev := some prevTotals }
+      let restricted ← elimParty d a.votes passed
+      P { a with votes := restricted, n := some v, prev := some prev }) := by
+  simp [conditionedLaw, h, seatsForm, hv]
 
 /-! ### concrete trees (non-vacuity and witnesses) -/
 
@@ -230,7 +265,7 @@ theorem fix_904ccca_now : eval tree904 args904 = .ok (sv [(0, 1), (1, 1)])
     the previous gains were silently dropped -/
 theorem fix_904ccca_before_witness :
     acceptsPrevGainsOld (.tieBreaking haT plurT) ≠ (takes (.tieBreaking haT plurT)).prev
-    ∧ conditionedImpl (acceptsPrevGainsOld (thrT 0)) (acceptsSeats (.tieBreaking haT plurT))
+    ∧ conditionedImplOld (acceptsPrevGainsOld (thrT 0)) (acceptsSeats (.tieBreaking haT plurT))
         (acceptsPrevGainsOld (.tieBreaking haT plurT)) (eval (thrT 0)) (eval (.tieBreaking haT plurT)) 1 args904
       = .ok (sv [(0, 3), (1, 1)]) := by decide +kernel
 
@@ -251,7 +286,7 @@ theorem fix_e582ee8_partyList_now :
 /-- … with the flag as it was it seated 3 + 1 -/
 theorem fix_e582ee8_partyList_before_witness :
     acceptsPrevGains904 (.partyList haT Option.none Option.none) ≠ (takes (.partyList haT Option.none Option.none)).prev
-    ∧ conditionedImpl (acceptsPrevGains904 (thrT 0)) (acceptsSeatsOld (.partyList haT Option.none Option.none))
+    ∧ conditionedImplOld (acceptsPrevGains904 (thrT 0)) (acceptsSeatsOld (.partyList haT Option.none Option.none))
         (acceptsPrevGains904 (.partyList haT Option.none Option.none)) (eval (thrT 0))
         (eval (.partyList haT Option.none Option.none)) 1 argsPlist
       = .ok (.dict [(.cand 0, .list [.cand 200, .cand 201, .cand 202]), (.cand 1, .list [.cand 210])]) := by
@@ -271,20 +306,35 @@ theorem fix_e582ee8_generic_now :
 theorem fix_e582ee8_generic_before_witness :
     acceptsSeatsOld (.votingSystem (.fixedSeatCount plurT (.num 1)))
       ≠ (takes (.votingSystem (.fixedSeatCount plurT (.num 1)))).seats
-    ∧ conditionedImpl (acceptsPrevGains (thrT 2)) (acceptsSeatsOld (.votingSystem (.fixedSeatCount plurT (.num 1))))
+    ∧ conditionedImplOld (acceptsPrevGains (thrT 2)) (acceptsSeatsOld (.votingSystem (.fixedSeatCount plurT (.num 1))))
         (acceptsPrevGains (.votingSystem (.fixedSeatCount plurT (.num 1)))) (eval (thrT 2))
         (eval (.votingSystem (.fixedSeatCount plurT (.num 1)))) 1 argsGeneric = .error eType := by
   decide +kernel
 
-/-- STILL OPEN: Conditioned forwards its default `n_seats=None`; the law (what the code does) and the ideal
-    (an omitted seat count stays omitted) differ for a part with a default seat count -/
+/-- repaired (notes/fix_C14_cond_none_seats.diff): Conditioned hands `n_seats` on only if it is not None; a
+    call without seat count reaches Plurality without one (default 1) … -/
 def treeNone : Ev := .conditioned (thrT 2) plurT 1
 
-theorem conditioned_none_seats_witness :
+theorem fix_cond_none_seats_now :
     WellFormed treeNone = true ∧ argsGeneric.fits (takes treeNone) = true
-    ∧ eval treeNone argsGeneric = .error eType
-    ∧ denote treeNone argsGeneric = .error eType
-    ∧ conditionedIdeal (denote (thrT 2)) (denote plurT) 1 argsGeneric = .ok (.list [.cand 0]) := by
+    ∧ eval treeNone argsGeneric = .ok (.list [.cand 0])
+    ∧ denote treeNone argsGeneric = .ok (.list [.cand 0]) := by
+  decide +kernel
+
+/-- a main evaluator whose `n_seats` is a required parameter still gets the None, so that what worked before
+    the repair still works: Conditioned over a MultistageDistributor of constituencies with a fixed table -/
+example :
+    let t : Ev := .conditioned (thrT 2) (.multistage [.byConstituency haT (.int 2) Option.none] 2) 2
+    let a : Args := { votes := .dict [(.cand 100, sv [(0, 5), (1, 1)]), (.cand 101, sv [(0, 3), (1, 4)])] }
+    WellFormed t = true ∧ a.fits (takes t) = true
+    ∧ eval t a = .ok (.dict [(.cand 100, sv [(0, 2)]), (.cand 101, sv [(0, 1), (1, 1)])])
+    ∧ denote t a = .ok (.dict [(.cand 100, sv [(0, 2)]), (.cand 101, sv [(0, 1), (1, 1)])]) := by
+  decide +kernel
+
+/-- … the default None used to be forwarded positionally -/
+theorem fix_cond_none_seats_before_witness :
+    conditionedImplOld (acceptsPrevGains (thrT 2)) (acceptsSeats plurT) (acceptsPrevGains plurT)
+      (eval (thrT 2)) (eval plurT) 1 argsGeneric = .error eType := by
   decide +kernel
 
 /-! ### per-constituency and per-party: before and after 9f4a9df / e582ee8 -/
@@ -387,6 +437,37 @@ theorem fix_e582ee8_byParty_seatless_before_witness :
       = .error eType := by
   decide +kernel
 
+/-- the same slip in ByParty (overall evaluator with a default seat count) and in ByConstituency's
+    preselector, repaired by the same patch -/
+def s2d1 : Conv := .selectionToDistribution (.num 1)
+def treeByPartyDefault : Ev := .byParty (.postConverted plurT s2d1) (some haT)
+
+theorem fix_cond_none_seats_byParty_now :
+    WellFormed treeByPartyDefault = true ∧ argsByPartyNone.fits (takes treeByPartyDefault) = true
+    ∧ eval treeByPartyDefault argsByPartyNone = .ok (.dict [(.cand 100, sv [(0, 1)]), (.cand 101, .dict [])])
+    ∧ denote treeByPartyDefault argsByPartyNone
+        = .ok (.dict [(.cand 100, sv [(0, 1)]), (.cand 101, .dict [])]) := by
+  decide +kernel
+
+theorem fix_cond_none_seats_byParty_before_witness :
+    byPartyImplOld (acceptsSeats (.postConverted plurT s2d1)) (acceptsPrevGains haT)
+      (eval (.postConverted plurT s2d1)) (eval haT) argsByPartyNone = .error eType := by
+  decide +kernel
+
+def treePreselDefault : Ev := .byConstituency haT (.int 2) (some plurT)
+
+theorem fix_cond_none_seats_preselector_now :
+    WellFormed treePreselDefault = true ∧ argsByPartyNone.fits (takes treePreselDefault) = true
+    ∧ eval treePreselDefault argsByPartyNone = .ok (.dict [(.cand 100, sv [(0, 2)]), (.cand 101, sv [(0, 2)])])
+    ∧ denote treePreselDefault argsByPartyNone
+        = .ok (.dict [(.cand 100, sv [(0, 2)]), (.cand 101, sv [(0, 2)])]) := by
+  decide +kernel
+
+theorem fix_cond_none_seats_preselector_before_witness :
+    byConstituencyImplOld (acceptsPrevGains haT) (acceptsSeats plurT) (eval haT) (.int 2) (some (eval plurT))
+      argsByPartyNone = .error eType := by
+  decide +kernel
+
 /-- repaired by 5bf2df2: ByParty hands `max_seats` to its allocator only if the allocator accepts it (here
     the allocator accepts `prev_gains`, through Conditioned, but not `max_seats`); the tree is outside
     `WellFormed` (the allocator is not a full distributor), the call is covered by `byParty_law_columns` … -/
@@ -428,13 +509,13 @@ example :
 
 /-- per-constituency evaluation never fails for lack of an evaluated constituency (9f4a9df): whenever the
     apportionment, the preselection and every single constituency evaluate, the composition is a value -/
-theorem byConstituency_total (P : Sem) (app : App Sem) (pre : Option Sem) (a : Args) (seats : V)
+theorem byConstituency_total (preNeeds : Bool) (P : Sem) (app : App Sem) (pre : Option Sem) (a : Args) (seats : V)
     (allowed : Option V) (kvs : D) (rs : List (Key × Option V))
     (h1 : apportionLaw app a.votes (a.n.getD .none) = .ok seats)
-    (h2 : allowedLaw pre a.votes (a.n.getD .none) = .ok allowed)
+    (h2 : allowedLaw preNeeds pre a.votes (a.n.getD .none) = .ok allowed)
     (h3 : a.votes = .dict kvs)
     (h4 : districtsLaw P allowed seats (a.prev.getD (.dict [])) (a.max.getD (.dict [])) (.num 0) kvs = .ok rs) :
-    ∃ kind, byConstituencyLaw P app pre a = .ok (assemble rs kind) := by
+    ∃ kind, byConstituencyLaw preNeeds P app pre a = .ok (assemble rs kind) := by
   refine ⟨(match rs.findSome? (·.2) with
     | some first => emptyLike first
     | Option.none => .dict []), ?_⟩
